@@ -176,6 +176,10 @@ pub fn corpus(tier: Tier) -> Vec<(String, String)> {
         out.push((format!("hand:recursive-{name}"), src.to_string()));
     }
     out.push((
+        "hand:loops-sharing-an-accumulator".into(),
+        "pub fn main(a: [u8; 3], n: u8) -> u8 {\n  let mut acc = n;\n  for i in 0u8..3u8 {\n    acc = acc + i;\n  }\n  for x in a {\n    acc = acc ^ x;\n  }\n  for j in 0usize..2usize {\n    acc = acc + a[j];\n  }\n  for (k, v) in [(1u8, 2u8), (3u8, 4u8)] {\n    acc = acc ^ k ^ v;\n  }\n  acc\n}\n".into(),
+    ));
+    out.push((
         "hand:consts-literal".into(),
         "const A: usize = 2usize;\nconst B: usize = A + 1usize;\nconst C: usize = max(A, B) - 1usize;\nconst D: u8 = 3u8;\nconst E: u8 = min(D, 9u8) + D;\nconst F: bool = true;\nconst G: bool = F;\nconst H: i8 = -5i8;\nconst I: i8 = H - 1i8;\npub fn main(x: [u8; C], y: [i8; B]) -> (u8, i8, bool) {\n  let mut s = E;\n  for e in x {\n    s = s ^ e;\n  }\n  (s + D, y[A] + I, G ^ F)\n}\n".into(),
     ));
